@@ -55,7 +55,13 @@ fn gen_err(r: &mut Prng, uniq: &mut u32) -> ErrSpec {
     let mut fields: Vec<String> = vec![
         format!("<error-type>{ty}</error-type>"),
         format!("<error-tag>{tag}</error-tag>"),
-        format!("<error-severity>{severity}</error-severity>"),
+        // the same content in other lexical forms a server's XML writer may choose
+        match r.below(12) {
+            0 => format!("<error-severity><![CDATA[{severity}]]></error-severity>"),
+            1 => format!("<error-severity>&#{};{}</error-severity>", severity.as_bytes()[0], &severity[1..]),
+            2 => format!("<error-severity>{severity}<!-- level --></error-severity>"),
+            _ => format!("<error-severity>{severity}</error-severity>"),
+        },
         format!("<error-message>{msg}</error-message>"),
     ];
     if r.chance(1, 3) {
@@ -404,12 +410,30 @@ fn second_reply_stage(rep: &mut Report, cfg: &Cfg) {
         }
         let (ida, idb) = (&ids[ids.len() - 2], &ids[ids.len() - 1]);
         let doc = |id: &str, body: &str| format!("<rpc-reply xmlns=\"{BASE_NS}\" message-id=\"{id}\">{body}</rpc-reply>{MARKER}").into_bytes();
-        s.wire.deliver(doc(idb, &err_body));
-        s.wire.deliver(doc(idb, &ok_body));
+        // variants: two separate replies; or both <rpc-reply> elements in ONE frame (the
+        // delimiter between them never came) - bearing the same id, or the second another id
+        let variant = idx % 4;
+        let strip = |v: Vec<u8>| v[..v.len() - MARKER.len()].to_vec();
+        match variant {
+            0 | 1 => {
+                s.wire.deliver(doc(idb, &err_body));
+                s.wire.deliver(doc(idb, &ok_body));
+            }
+            2 => {
+                let mut f = strip(doc(idb, &err_body));
+                f.extend(doc(idb, &ok_body));
+                s.wire.deliver(f);
+            }
+            _ => {
+                let mut f = strip(doc(idb, &err_body));
+                f.extend(doc("999999", &ok_body));
+                s.wire.deliver(f);
+            }
+        }
         s.wire.deliver(crate::memwire::data_reply(ida, "a"));
         let ra = drive(Box::pin(fa), 64);
         let rb = drive(fb, 64);
-        let key = format!("second|{kind}|{err_body}");
+        let key = format!("second|{kind}|{variant}|{err_body}");
         rep.case(Some(key.as_bytes()));
         rep.count("second_reply_cases");
         let wit = json!({"reply_type": KINDS[kind], "first_reply_to_b": clip(&err_body, 600), "second_reply_to_b": ok_body, "case_index": idx, "seed": cfg.seed,
@@ -417,7 +441,7 @@ fn second_reply_stage(rep: &mut Report, cfg: &Cfg) {
             "b": format!("{:?}", rb.as_ref().map(|r| r.as_ref().map(|v| v.clone()).map_err(|e| format!("{e:?}"))))});
         match rb {
             Some(Ok(_)) => rep.violation(
-                &format!("{}:error-reply-replaced-by-a-second-positive-reply", KINDS[kind]),
+                &format!("{}:{}", KINDS[kind], match variant { 0 | 1 => "error-reply-replaced-by-a-second-positive-reply", 2 => "error-root-followed-by-positive-root-in-one-frame:same-id", _ => "error-root-followed-by-positive-root-in-one-frame:other-id" }),
                 "the request was answered with an rpc-error of severity error; a second reply bearing its message-id turned that into success",
                 wit,
             ),
